@@ -201,6 +201,16 @@ def priors():
     yield 'hostile_names_stale', lambda: hostile('stale')
     yield 'hostile_names_unlisted', lambda: hostile('none')
 
+    def prunable_pairs():
+        # two dot-directories and two IGNOREd directories that are neighbours in any sorted listing; the
+        # second IGNOREd directory holds a valid Manifest and a symlink loop nobody may ever walk into
+        files = dict(B)
+        sub = b'DATA k 1 SHA1 ' + __import__('hashlib').sha1(b'k').hexdigest().encode() + b'\n'
+        return Scenario(files, [MSpec(TOP, [_F(p) for p in sorted(B)] + [('L', 'IGNORE ign'), ('L', 'IGNORE ign2')])],
+                        links={'ign2/loop': '..', 'ign/loop': '..'},
+                        raw={'.a/x': b'x', '.b/y': b'y', 'ign/j': b'j', 'ign2/k': b'k', 'ign2/Manifest': sub})
+    yield 'prunable_pairs', prunable_pairs
+
     def tags_rich():
         files = dict(B)
         files.update({'files/aux1': b'aux', 'p-1.ebuild': b'eb', 'metadata.xml': b'<x/>', 'out/o1': b'outside'})
